@@ -985,6 +985,10 @@ func (rule *RuleExpression) checkMatrix(m *Matrix) *ObjectType {
 			if merged, ok := o.Merge(ty).(*ObjectType); ok {
 				// Merge may return its argument as-is. Copy it since `o` is modified later
 				o = merged.DeepCopy().(*ObjectType)
+				if t, ok := ty.(*ObjectType); ok && !t.IsStrict() {
+					// The element is an open object. It may overwrite any matrix values with values of unknown types
+					unknown = true
+				}
 			} else {
 				o.Loose()
 				unknown = true
